@@ -1661,6 +1661,59 @@ class _ExprNorm(ast.NodeTransformer):
         return node
 
 
+class _PairTargets(ast.NodeTransformer):
+    """[.. f(*kv, ..) .. for kv in M.items()]  ->  [.. f(k_, v_, ..) .. for k_, v_ in M.items()]   (items() yields pairs; kv used only
+    unpacked or indexed by 0 / 1): the row and its two halves read the same"""
+    def _comp(self, node):
+        self.generic_visit(node)
+        for g in node.generators:
+            it = g.iter
+            if isinstance(g.target, ast.Name) and isinstance(it, ast.Call) and isinstance(it.func, ast.Attribute) and it.func.attr == "items" and not it.args and not it.keywords:
+                v = g.target.id
+                parts = [getattr(node, f) for f in ("elt", "key", "value") if hasattr(node, f)] + list(g.ifs)
+                uses = [n for p_ in parts for n in ast.walk(p_) if isinstance(n, ast.Name) and n.id == v]
+                okay = {id(n.value) for p_ in parts for n in ast.walk(p_) if isinstance(n, ast.Starred) and isinstance(n.value, ast.Name)} | \
+                    {id(n.value) for p_ in parts for n in ast.walk(p_) if isinstance(n, ast.Subscript) and isinstance(n.value, ast.Name) and isinstance(n.slice, ast.Constant) and n.slice.value in (0, 1)}
+                if uses and all(id(n) in okay for n in uses) and not any(isinstance(n, ast.Name) and n.id in (v + "_k", v + "_v") for p_ in parts for n in ast.walk(p_)):
+                    k_, v_ = v + "_k", v + "_v"
+
+                    class R(ast.NodeTransformer):
+                        def visit_Call(self, c):
+                            self.generic_visit(c)
+                            new = []
+                            for a in c.args:
+                                if isinstance(a, ast.Starred) and isinstance(a.value, ast.Name) and a.value.id == v:
+                                    new += [ast.Name(id=k_, ctx=ast.Load()), ast.Name(id=v_, ctx=ast.Load())]
+                                else:
+                                    new.append(a)
+                            c.args = new
+                            return c
+
+                        def visit_Tuple(self, t):
+                            self.generic_visit(t)
+                            new = []
+                            for a in t.elts:
+                                if isinstance(a, ast.Starred) and isinstance(a.value, ast.Name) and a.value.id == v:
+                                    new += [ast.Name(id=k_, ctx=ast.Load()), ast.Name(id=v_, ctx=ast.Load())]
+                                else:
+                                    new.append(a)
+                            t.elts = new
+                            return t
+                        visit_List = visit_Tuple
+
+                        def visit_Subscript(self, n):
+                            if isinstance(n.value, ast.Name) and n.value.id == v and isinstance(n.slice, ast.Constant) and n.slice.value in (0, 1):
+                                return ast.copy_location(ast.Name(id=(k_, v_)[n.slice.value], ctx=ast.Load()), n)
+                            return self.generic_visit(n)
+                    for f in ("elt", "key", "value"):
+                        if hasattr(node, f):
+                            setattr(node, f, R().visit(getattr(node, f)))
+                    g.ifs = [R().visit(x) for x in g.ifs]
+                    g.target = ast.copy_location(ast.Tuple(elts=[ast.Name(id=k_, ctx=ast.Store()), ast.Name(id=v_, ctx=ast.Store())], ctx=ast.Store()), g.target)
+        return ast.fix_missing_locations(node)
+    visit_ListComp = visit_SetComp = visit_DictComp = visit_GeneratorExp = _comp
+
+
 class _BoundVars(ast.NodeTransformer):
     """rename comprehension and lambda variables to c0, c1, .. (by nesting order)"""
     def __init__(self):
@@ -4340,6 +4393,7 @@ class Canon:
         b = self._inline_class_constants(b, cls)
         b = norm.merge_display_building(norm.unroll_literal_loops(b))
         b = _callee_locals(b)
+        b = [_PairTargets().visit(s_) for s_ in b]
         b = [ast.fix_missing_locations(_ExprNorm().visit(s_)) for s_ in b]         # expression idioms first (map(f, xs), applied lambdas of table rows): helpers in them are then seen
         # nested function definitions that get inlined are dropped afterwards
         b = lower_matches(b, self._match_args(module, fn))
